@@ -774,6 +774,94 @@ func runC04(w *World, r *Report) {
 		r.check(bad == "" && n > 0, "signed-time-at-full-precision", cv[0]+"."+strings.TrimPrefix(cv[1]+".", ".")+cv[2], w.Pos(fn.Pos()), fmt.Sprintf("the creation time is read %d time(s), with UnixNano, and written as read", n), bad)
 	}
 
+	// 4d. what is verified is what was offered: a copy of a signed object's variable-length field into a buffer of a fixed
+	// size drops the surplus and pads the missing — the check then runs on a normalised value, not on the offered one
+	r.rule("no-fixed-size-copy-of-a-variable-field", "in the packages that carry vertices and transactions (accountant, transaction, gossip, transformers) no copy(dst, src) writes a slice field of accountant.Vertex / transaction.Transaction / a protobuf message into a destination of constant length (make([]byte, K), a [K]byte): such a copy truncates a longer value and zero-pads a shorter one", 0)
+	{
+		nCopy := 0
+		for _, fn := range w.RepoFuncs("accountant", "transaction", "gossip", "transformers") {
+			instrsOf(fn, func(in ssa.Instruction) {
+				c, ok := in.(*ssa.Call)
+				if !ok {
+					return
+				}
+				if b, isB := c.Call.Value.(*ssa.Builtin); !isB || b.Name() != "copy" || len(c.Call.Args) != 2 {
+					return
+				}
+				dst, src := c.Call.Args[0], c.Call.Args[1]
+				constLen := false
+				for _, o := range origins(dst) {
+					switch x := o.(type) {
+					case *ssa.MakeSlice:
+						if _, isK := intConst(x.Len); isK {
+							constLen = true
+						}
+					case *ssa.Slice:
+						if al, isAl := x.X.(*ssa.Alloc); isAl {
+							if _, isArr := deref(al.Type()).Underlying().(*types.Array); isArr {
+								constLen = true
+							}
+						}
+					case *ssa.Alloc:
+						if _, isArr := deref(x.Type()).Underlying().(*types.Array); isArr {
+							constLen = true
+						}
+					}
+				}
+				if !constLen {
+					return
+				}
+				field := ""
+				var walk func(v ssa.Value, d int)
+				walk = func(v ssa.Value, d int) {
+					if v == nil || d > 5 || field != "" {
+						return
+					}
+					for _, o := range origins(v) {
+						switch x := o.(type) {
+						case *ssa.UnOp:
+							if fa, ok := x.X.(*ssa.FieldAddr); ok {
+								t := deref(fa.X.Type()).String()
+								if strings.HasSuffix(t, "accountant.Vertex") || strings.HasSuffix(t, "transaction.Transaction") || isPBMessagePtr(fa.X.Type()) {
+									if _, isSl := x.Type().Underlying().(*types.Slice); isSl {
+										field = pathOf(x)
+									}
+								}
+							}
+						case *ssa.Field:
+							t := deref(x.X.Type()).String()
+							if strings.HasSuffix(t, "accountant.Vertex") || strings.HasSuffix(t, "transaction.Transaction") {
+								if _, isSl := x.Type().Underlying().(*types.Slice); isSl {
+									field = pathOf(x)
+								}
+							}
+						case *ssa.Parameter:
+							if _, isSl := x.Type().Underlying().(*types.Slice); isSl && d < 2 {
+								for _, cs := range staticCallers(w, x.Parent()) {
+									for k, p2 := range x.Parent().Params {
+										if p2 == x && k < len(cs.Common().Args) {
+											walk(cs.Common().Args[k], d+1)
+										}
+									}
+								}
+							}
+						}
+					}
+				}
+				walk(src, 0)
+				if field == "" {
+					return
+				}
+				nCopy++
+				r.bad("no-fixed-size-copy-of-a-variable-field", shortFn(fn)+"/copy("+field+")", lineOf(w, c), "a variable-length field is copied whole",
+					field+" is copied into a destination of constant length: a value of another length is silently cut or zero-padded, and what is verified, stored or forwarded afterwards is not what was offered")
+			})
+		}
+		if nCopy == 0 {
+			r.ok("no-fixed-size-copy-of-a-variable-field", "none", "-", "no variable-length field is copied into a fixed-size destination")
+		}
+	}
+
 	// 5. conditionally verified field must be bound
 	r.rule("conditional-signature-bound", "a signature whose verification is selected by a test on the field itself must contribute (content or presence) to an authenticated digest", 1)
 	if f := w.fx(r, "accountant", "Vertex", "verify"); f != nil {
